@@ -384,7 +384,8 @@ Qed.
 (* 4. completeness of the mirror                                                                   *)
 (* ============================================================================================== *)
 Definition lp_complete (lp : list (list N) -> list N -> option (list Q * list (N * Q))) : Prop :=
-  forall prefs axis, (exists vs xs, lp_sat prefs axis vs xs) -> lp prefs axis <> None.
+  forall prefs axis, NoDup axis -> Forall (fun r => Permutation axis r) prefs ->
+    (exists vs xs, lp_sat prefs axis vs xs) -> lp prefs axis <> None.
 
 Lemma qdist_opp p y : qdist (- p) (- y) == qdist p y.
 Proof. unfold qdist. assert (E : - p - - y == - (p - y)) by ring. rewrite E. apply Qabs_opp. Qed.
@@ -437,7 +438,15 @@ Proof.
     - eapply Forall_impl; [|exact Hrk]. cbn beta. intros r Hr c Hc. eapply Permutation_in; [exact Hr|].
       apply Hpa. eapply Permutation_in; [apply Permutation_sym; exact Haxp|exact Hc].
     - exact Hre. }
-  pose proof (Hlpc _ _ Hfeas) as Hne.
+  assert (Hwfp : Forall (fun r => Permutation (sort_by kc plus) r) (map (filter (fun c => memb c plus)) orders)).
+  { apply Forall_map. eapply Forall_impl; [|exact Hrk]. cbn beta. intros r Hr.
+    eapply Permutation_trans; [apply Permutation_sym; exact Haxp|].
+    assert (E : plus = filter (fun c => memb c plus) alts).
+    { unfold plus at 1. apply filter_ext_in. intros c Hc. destruct (negb (is_grey (g c))) eqn:Eg.
+      - symmetry. apply memb_In. apply filter_In. now split.
+      - symmetry. destruct (memb c plus) eqn:Em; [|reflexivity]. apply memb_In, filter_In in Em. destruct Em. congruence. }
+    rewrite E at 1. now apply Permutation_filter. }
+  pose proof (Hlpc _ _ (Permutation_NoDup Haxp Hndp) Hwfp Hfeas) as Hne.
   destruct (lp (map (filter (fun c => memb c plus)) orders) (sort_by kc plus)) as [[voters alternatives]|]; [|congruence].
   eexists. reflexivity.
 Qed.
